@@ -523,6 +523,7 @@ func (k *checker) evalCase(cs *caseSpec) string {
 		// Known shape (FMSPC blacklist entry in another letter case). Report it under its own fixed
 		// signature and make sure it does not mask a second reason: re-evaluate without the blacklist.
 		k.reportCaseVariant(cs)
+		defer func() { k.r.Count("known_shape/"+caseVariantDetail, 1) }()
 		p2 := *in.Policy
 		p2.FMSPCBlacklist = nil
 		in2 := *in
